@@ -293,6 +293,24 @@ func sameRepr(a, b []string) bool {
 // preconditions become obligations, its conclusions assumptions.
 func (x *Exec) applyUses(ce *Env, uses []Clause, tag string) {
 	for ui, uc := range uses {
+		ui, uc := ui, uc
+		func() {
+			// a use clause that mentions a local which does not exist on this path is skipped
+			defer func() {
+				if r := recover(); r != nil {
+					if ue, ok := r.(*UnsupportedError); ok && strings.Contains(ue.Msg, "unknown identifier") {
+						return
+					}
+					panic(r)
+				}
+			}()
+			x.applyUse(ce, ui, uc, tag)
+		}()
+	}
+}
+
+func (x *Exec) applyUse(ce *Env, ui int, uc Clause, tag string) {
+	{
 		call, ok := uc.Expr.(*ast.CallExpr)
 		if !ok {
 			unsupported("%s: use clause must be a lemma application", uc.Line)
